@@ -564,6 +564,36 @@ fn client_outcomes(rt: &Rt, trt: &tokio::runtime::Runtime, args: &Args, ev: &mut
     }
 }
 
+/// a connection that is lost (the peer closes it instead of answering): the C listener is told
+/// `wait_after_disconnect`, as the Rust listener is
+fn lost_connection_state(rt: &Rt, ev: &mut Evidence) {
+    let peer = Peer::start();
+    peer.push(Mode::Genuine);
+    peer.push(Mode::Close);
+    let ch = CChannel::tcp(rt, peer.port, 4, decode(0, 0, 0));
+    ch.enable();
+    if !ch.wait_state(2, Duration::from_secs(5)) {
+        ev.inconclusive("C-ABI channel did not connect (lost-connection cell)");
+        ch.destroy();
+        return;
+    }
+    let req = ClientReq::Read { kind: Kind::ReadHolding, start: 0, count: 1 };
+    let (_rc, c) = ch.op(&req, 1, 1000);
+    c.wait(Duration::from_millis(1500));
+    let (_rc, c) = ch.op(&req, 1, 1000);
+    c.wait(Duration::from_millis(1500));
+    let seen = ch.wait_state(4, Duration::from_secs(3));
+    let states = ch.destroy();
+    let cs: Vec<&str> = states.seq.lock().unwrap().iter().map(|s| client_state_name(*s)).collect();
+    ev.eval();
+    ev.class(format!("client_state|lost_connection|{}", if seen { "wait_after_disconnect" } else { "other" }));
+    if !seen {
+        ev.violation("client_state:lost_connection:no_wait_after_disconnect".to_string(), format!("the peer closed the connection instead of answering; the C listener saw {cs:?}"), json!({}));
+    } else {
+        ev.count("client_state_wait_after_disconnect_observed", 1);
+    }
+}
+
 /// calls the library must refuse: nothing is transmitted, the call reports an error, and the
 /// completion callback still fires exactly once (a failure), followed by one on_destroy
 fn invalid_arguments(rt: &Rt, ev: &mut Evidence) {
@@ -1402,7 +1432,7 @@ fn configuration(rt: &Rt, ev: &mut Evidence) {
             let path = std::ffi::CStr::from_ptr(buf.as_ptr()).to_owned();
             // (baud, data bits enum, flow enum, parity enum, stop bits enum)
             for (baud, data, flow, parity, stop) in [(19200u32, 2i32, 0i32, 2i32, 1i32), (9600, 3, 1, 1, 0), (115200, 3, 0, 0, 0), (4800, 1, 2, 0, 1)] {
-                let (_st, listener) = port_listener();
+                let (st, listener) = port_listener();
                 let mut ch = std::ptr::null_mut();
                 let settings = ffi::SerialPortSettings { baud_rate: baud, data_bits: data, flow_control: flow, parity, stop_bits: stop };
                 let rc = ffi::rodbus_client_channel_create_rtu(rt.0, path.as_ptr(), settings, 4, retry(50, 100), decode(0, 0, 0), listener, &mut ch);
@@ -1411,6 +1441,16 @@ fn configuration(rt: &Rt, ev: &mut Evidence) {
                 }
                 ffi::rodbus_client_channel_enable(ch);
                 std::thread::sleep(Duration::from_millis(120));
+                // the port is open: the C port listener is told so, by that name
+                {
+                    let seen: Vec<&str> = st.seq.lock().unwrap().iter().map(|x| port_state_name(*x)).collect();
+                    ev.class(format!("port_state|{}", seen.join(">")));
+                    if seen != ["disabled", "open"] {
+                        ev.violation(format!("port_state:open_port:{}", seen.join(">")), format!("serial channel on a pty that can be opened: the C port listener saw {seen:?}, expected disabled, open"), json!({"baud": baud}));
+                    } else {
+                        ev.count("port_state_open_observed", 1);
+                    }
+                }
                 let fd = libc::open(path.as_ptr(), libc::O_RDWR | libc::O_NOCTTY | libc::O_NONBLOCK);
                 let mut t: libc::termios = std::mem::zeroed();
                 let ok = fd >= 0 && libc::tcgetattr(fd, &mut t) == 0;
@@ -1470,6 +1510,7 @@ pub fn run(args: &Args) -> i32 {
     client_outcomes(&rt, &trt, args, &mut ev);
     client_failures(&rt, args, &mut ev);
     invalid_arguments(&rt, &mut ev);
+    lost_connection_state(&rt, &mut ev);
     write_results(&rt, args, &mut ev);
     match &log {
         Some(l) => decode_levels(&rt, &trt, l, &mut ev),
